@@ -12,8 +12,9 @@ READY_C08 = True
 COQ_PROPS_C07 = ['Properties_C07_cq']
 COQ_PROPS_C08 = ['Properties_C08_cq']
 
-RULE_C07 = ('operation scripts over up to 4 registers holding quantiles_sketch<int64_t>, <double> (integer values, NaN updates and NaN split points) or '
-            '<string, greater> (order-isomorphic encoding): k in {2,4,8,16,32,128} plus refused k (0,1,3,6,100,65535,65536); streams sorted/reversed/random/constant/'
+RULE_C07 = ('operation scripts over up to 4 registers holding quantiles_sketch<int64_t>, <double> (integer values, NaN updates and NaN split points), '
+            '<string, greater> (order-isomorphic encoding) or <int64_t, DirCmp> with a STATEFUL comparator instance (descending flag set at construction, items negated; '
+            'a default-constructed instance compares the other way, so any use of C() instead of the stored comparator shows): k in {2,4,8,16,32,128} plus refused k (0,1,3,6,100,65535,65536); streams sorted/reversed/random/constant/'
             'heavy duplicates of 0..~3000 items, lengths aimed at multiples of 2k (empty base buffer, bit patterns with gaps and with carry chains); every combination of '
             '{empty, exact, estimating} target x {empty, exact, estimating} source x {k smaller, equal, larger} merge (standard, downsampling in both directions, '
             'result built on a copy of the source), lvalue and rvalue, merge chains and trees, copies, copy/move assignment; deterministic "query, then change the content (every merge case incl. empty source base buffer, update, assignment, copy), then the same queries" cases so that every content-changing path runs on a sketch holding a cached sorted view; after the history every register is observed (n, k, min, max, '
@@ -216,7 +217,7 @@ def gen_c07(rng, tier):
         for sa in ('empty', 'exact', 'est'):
             for so in ('empty', 'exact', 'est'):
                 for rel in ('lt', 'eq', 'gt'):
-                    kind = rng.choice([0, 0, 1, 2])
+                    kind = rng.choice([0, 0, 1, 2, 3, 3])
                     b = Builder(rng, kind)
                     b.ops.append([99, rng.randrange(1 << 30)])
                     ka = rng.choice([4, 8, 16]); f = rng.choice([2, 2, 4])
@@ -244,7 +245,7 @@ def gen_c07(rng, tier):
         for so in sstates:
             for rel in ('lt', 'eq', 'gt'):
                 for mode in (0, 1):
-                    kind = rng.choice([0, 0, 1, 2])
+                    kind = rng.choice([0, 0, 1, 2, 3, 3])
                     b = Builder(rng, kind)
                     b.ops.append([99, rng.randrange(1 << 30)])
                     ka = rng.choice([4, 8]); f = rng.choice([2, 2, 4])
@@ -269,7 +270,7 @@ def gen_c07(rng, tier):
                     cases.append(dict(id='cqv%d' % idx, ops=b.ops, tags=sorted(b.tags | {'merge', 'cached-view'})))
                     idx += 1
     for rep in range(12 if not thorough else 60):
-        kind = rng.choice([0, 1, 2])
+        kind = rng.choice([0, 1, 2, 3])
         b = Builder(rng, kind)
         b.ops.append([99, rng.randrange(1 << 30)])
         k = rng.choice([2, 4, 8]); b.new(0, k); b.new(1, rng.choice([2, 4, 8])); b.new(2, k)
@@ -318,7 +319,7 @@ def gen_c07(rng, tier):
         cases.append(dict(id='cqbig_k%d_%s' % (k, how), ops=b.ops, tags=sorted(b.tags | {'merge', 'levels>=32'})))
     # directed: downsampling merges between two estimating sketches (both directions), chains of them
     for rep in range(12 if not thorough else 120):
-        kind = rng.choice([0, 0, 1, 2])
+        kind = rng.choice([0, 0, 1, 2, 3, 3])
         b = Builder(rng, kind)
         b.ops.append([99, rng.randrange(1 << 30)])
         nreg = rng.choice([2, 3, 4])
@@ -337,7 +338,7 @@ def gen_c07(rng, tier):
         cases.append(dict(id='cqs%d' % rep, ops=b.ops, tags=sorted(b.tags | {'merge'})))
     ncases = 90 if not thorough else 1200
     for ci in range(ncases):
-        kind = rng.choice([0, 0, 1, 1, 2])
+        kind = rng.choice([0, 0, 1, 1, 2, 3])
         b = Builder(rng, kind)
         nreg = rng.choice([1, 2, 2, 3, 4])
         samek = rng.random() < 0.4
@@ -347,7 +348,7 @@ def gen_c07(rng, tier):
             k = k0 if samek else rng.choice(KS)
             if rng.random() < 0.08:
                 b.ops.append([1, r, kind, rng.choice(BAD_KS)])                           # refused k
-            kk = kind if rng.random() > 0.04 else (kind + 1) % 3                        # rarely a different item type (merge refused)
+            kk = kind if rng.random() > 0.04 else (kind + 1) % 4                        # rarely a different item type (merge refused)
             b.new(r, k, kk)
         big = rng.random() < (0.12 if not thorough else 0.2)
         nsteps = rng.choice([1, 2, 3, 4, 6])
@@ -385,6 +386,7 @@ def gen_c07(rng, tier):
         if any(s.n > 0 and s.bb == 0 for s in b.sims.values()): tags.add('base-buffer-empty')
         if any(s.bp and (s.bp & (s.bp + 1)) != 0 for s in b.sims.values()): tags.add('level-gap')
         if kind == 2: tags.add('string-greater')
+        if kind == 3: tags.add('stateful-comparator')
         if kind == 1: tags.add('double')
         if not (b.draws or b.merges):
             tags = set()
@@ -449,7 +451,7 @@ def oracle_c07(case, irecs, mrecs):
                 regs[op[1]] = dict(log=MS(), epoch=i, kind=op[2])
                 if not valid_k(op[3]):
                     fail('cq_bad_k_accepted', 'k = %d (not a power of two in [2, 32768]) was accepted' % op[3], i)
-            elif valid_k(op[3]) and op[2] in (0, 1, 2):
+            elif valid_k(op[3]) and op[2] in (0, 1, 2, 3):
                 fail('cq_good_k_refused', 'k = %d was refused' % op[3], i)
             continue
         r = op[1]
@@ -619,7 +621,7 @@ def history(rng, max_leaves):
     for _ in range(300):
         d0 = merge_with.down
         nreg = rng.choice([1, 1, 2, 2, 3])
-        kind = rng.choice([0, 0, 0, 1, 2])
+        kind = rng.choice([0, 0, 0, 1, 2, 3, 3])
         down = rng.random() < 0.45
         if down:
             nreg = rng.choice([2, 2, 3])
@@ -794,6 +796,7 @@ MANIFEST_C08 = dict(
 #   M20 (seeded C07-3) merge() no longer calls reset_sorted_view() at its end                C07 (cq_rank_vs_view; needs the 'cached-view' directed cases:
 #       estimating target that has answered a query + estimating source with an empty base buffer and k >= target's)
 #   M21 (seeded C08-12) get_sorted_view accumulates the level weight in a uint32_t                C07 (cq_view_total / rank; needs the 'levels>=32' doubling cases)
+#   M22 (seeded C08-15) in_place_propagate_carry merges with C() instead of the sketch's comparator   C07 + C08 (item kind 3, stateful comparator)
 # Harmless rewrites, not reported (exit 0 for C07 and C08):
 #   H1  merge_two_size_k_buffers takes ties from the other side
 #   H2  merge(): k_ <= other.k -> k_ < other.k in the exact-target branch (downsampling_merge with factor 1 does the same)
